@@ -147,8 +147,18 @@ def atomic_sites(body: str):
         args = split_args(body[p_open + 1:p_close])
         orders = []
         rest = list(args)
-        while rest and rest[-1] in ORDER_TOKENS:
-            orders.insert(0, ORDER_TOKENS[rest.pop()])
+        def order_of(tok):
+            # `kRelease`, `::dbgroup::lock::kRelease`, `std::memory_order_release`, `std::memory_order::release`
+            if tok in ORDER_TOKENS:
+                return ORDER_TOKENS[tok]
+            last = tok.replace(' ', '').split('::')[-1]
+            if last in ORDER_TOKENS:
+                return ORDER_TOKENS[last]
+            if 'memory_order' in tok and ('memory_order_' + last) in ORDER_TOKENS:
+                return ORDER_TOKENS['memory_order_' + last]
+            return None
+        while rest and order_of(rest[-1]) is not None:
+            orders.insert(0, order_of(rest.pop()))
         if meth == 'atomic_thread_fence':
             op = 'fence'
             recv = ''
@@ -180,3 +190,60 @@ def atomic_sites(body: str):
             orders = [s, f]
         sites.append({'op': op, 'recv': recv, 'orders': orders, 'args': rest, 'meth': meth})
     return sites
+
+
+_CALL_PAT = re.compile(r'(?<![\w.>:])([A-Za-z_]\w*)\s*\(')
+_NOT_HELPERS = {'if', 'while', 'for', 'switch', 'return', 'sizeof', 'static_cast', 'reinterpret_cast', 'const_cast',
+                'dynamic_cast', 'decltype', 'alignof', 'noexcept', 'catch', 'assert', 'defined', 'SpinWithBackoff'}
+
+
+def find_free_function(src: str, name: str):
+    """body of the free (non-member) function `name` defined in `src`, or None: the text between the parameter list and
+    the opening brace may only hold qualifiers / a trailing return type (so `if (name(x)) {` is not a definition)"""
+    pat = re.compile(r'(?<![\w:.>])' + re.escape(name) + r'\s*\(')
+    for m in pat.finditer(src):
+        p_open = m.end() - 1
+        p_close = match_close(src, p_open, '(', ')')
+        if p_close < 0:
+            continue
+        k = p_close + 1
+        while k < len(src) and src[k] not in '{;':
+            k += 1
+        if k >= len(src) or src[k] == ';':
+            continue
+        between = src[p_close + 1:k]
+        if not re.fullmatch(r'\s*(const\s*)?(noexcept\s*)?(->\s*[\w\s:<>&*,]+)?\s*', between):
+            continue
+        # what precedes the name must look like a return type (an identifier, `&`, `*`, `>`), not an operator or `=`
+        before = src[:m.start()].rstrip()
+        if not before or not re.search(r'[\w&*>]$', before) or re.search(r'\b(return|else|case)$', before):
+            continue
+        b_close = match_close(src, k)
+        if b_close < 0:
+            continue
+        return src[k + 1:b_close]
+    return None
+
+
+def atomic_sites_inlined(src: str, body: str, depth: int = 2, seen=()):
+    """atomic call sites of `body` in textual order, with the sites of file-local helper functions it calls spliced in at
+    the call (one or two levels): extracting a loop into a helper keeps a function's skeleton"""
+    items = []
+    for m in _site_pat.finditer(body):
+        items.append((m.start(), 'site'))
+    direct = atomic_sites(body)
+    pos_sites = [(m.start(), s) for m, s in zip(_site_pat.finditer(body), direct)]
+    out = list(pos_sites)
+    if depth > 0:
+        for m in _CALL_PAT.finditer(body):
+            name = m.group(1)
+            if name in _NOT_HELPERS or name in seen or name in ATOMIC_METHODS:
+                continue
+            hb = find_free_function(src, name)
+            if hb is None:
+                continue
+            sub = atomic_sites_inlined(src, hb, depth - 1, tuple(seen) + (name,))
+            for i, s2 in enumerate(sub):
+                out.append((m.start() + i * 1e-6, s2))
+    out.sort(key=lambda t: t[0])
+    return [s2 for _, s2 in out]
